@@ -381,3 +381,196 @@ def c07(ctx, schemas=None, prog=None):
         roots += 1 if k else 0
     ctx.floor('S-LEN.derive', 'schemas', roots, min(60, len(schemas or d['schemas'])))
     return n
+
+
+# ---------------------------------------------------------------------------
+# C09: derived decode run over the derived emission
+
+ALLOWED_OPAQUE = ('opaque:std::vec::Vec::<T, A>::push', 'opaque:alloc::vec::Vec::<T, A>::push')
+
+
+def decoded_fields(prog, s, v, value):
+    """{field name: decoded value} from an Ok(struct/enum) decode result"""
+    if not isinstance(value, Adt):
+        return None
+    ad = prog.adts.get(value.adt)
+    if ad is None:
+        return None
+    var = ad['variants'][value.variant]
+    return dict(zip(var['fields'], value.fields)), var['name']
+
+
+def val_is_none(x):
+    return isinstance(x, Adt) and x.adt.endswith('option::Option') and x.variant == 0
+
+
+def val_is_some(x):
+    return isinstance(x, Adt) and x.adt.endswith('option::Option') and x.variant == 1
+
+
+def reframe(events, lead):
+    """replace the definite container that starts after `lead` leading items by an indefinite one"""
+    ev = [e for e in events if e[0] in ('ITEM', 'REP_BEGIN', 'REP_END')]
+    if lead >= len(ev) or ev[lead][0] != 'ITEM' or ev[lead][1] not in ('ARRAY', 'MAP'):
+        return None
+    head = ev[lead]
+    if not (isinstance(head[2], Int) and head[2].is_const()):
+        return None
+    j, _ = parse_tree(ev, lead)
+    if j is None:
+        return None
+    return ev[:lead] + [('ITEM', 'BEGIN', head[1].lower())] + ev[lead + 1:j] + [('ITEM', 'BREAK')] + ev[j:]
+
+
+def lead_items(s, v):
+    n = 1 if s.get('tag') is not None else 0
+    if s['kind'] == 'enum':
+        if s.get('index_only'):
+            return None
+        n += 2
+        if v.get('tag') is not None:
+            n += 1
+    return n
+
+
+def check_decode_over(ctx, rule, key, prog, s, dpath, events, expect, where, leaf=LEAF, from_state=None):
+    """run the derived decoder of schema s over `events`; `expect` maps field name -> ('origin', writer field key) | ('none',) | ('default',) | ('any',)
+    returns True when everything matched"""
+    try:
+        r = l2.run_decode(prog, dpath, events, leaf, from_state=from_state)
+    except Abort as e:
+        ctx.fail_closed(rule, '%s: decoder cannot be summarised: %s' % (s['name'], e))
+        return False
+    if r is None:
+        ctx.fail_closed(rule, 'derived Decode for %s not found' % s['name'])
+        return False
+    inst, outs, m = r
+    good = True
+    n_ok = 0
+    nil_known = from_state is not None and any(k.startswith('is_nil(') and v == 1 for k, v in (from_state.extra.get('known') or {}).items())
+    for o in outs:
+        if o.kind != 'return':
+            ctx.violation(rule + '.total', key, 'decode path does not return: %s' % o.why, where)
+            good = False
+            continue
+        kind = l1.result_kind(o.value)
+        ch = summaries.choices(o.st)
+        if nil_known and any(k.startswith('nil') and v == 'None' for k, v in ch.items()):
+            # the writer treated a value of an opaque type as nil, so by the is_nil/nil contract that type's nil() is Some
+            continue
+        if kind != 'Ok':
+            cls = l1.error_class(prog, o.value.fields[0]) if isinstance(o.value, Adt) and o.value.fields else '?'
+            mm = [e for e in o.st.events if e[0] == 'MISMATCH']
+            ctx.violation(rule, key + '|error', 'decoding fails with %s%s' % (cls, (' at ' + repr(mm[0][1:3])[:160]) if mm else ''), where)
+            good = False
+            continue
+        n_ok += 1
+        if l2.cur(o.st) != len(l2.stream(o.st)):
+            rest = l2.stream(o.st)[l2.cur(o.st):]
+            ctx.violation(rule, key + '|consumption', 'decoding succeeds but leaves %d item(s) unread: %s' % (len(rest), fmt_items(rest)[:160]), where)
+            good = False
+            continue
+        fl = [f for f in summaries.bad_flags(o.st) if f not in ALLOWED_OPAQUE]
+        df = decoded_fields(prog, s, None, o.value.fields[0])
+        if df is None:
+            ctx.violation(rule, key + '|value', 'decoded value is %r' % (o.value.fields[0],), where)
+            good = False
+            continue
+        fields, vname_ = df
+        if expect.get('__variant__') not in (None, vname_):
+            ctx.violation(rule, key + '|variant', 'decoded variant %s, expected %s' % (vname_, expect['__variant__']), where)
+            good = False
+            continue
+        for fname, exp in expect.items():
+            if fname == '__variant__':
+                continue
+            got = fields.get(fname)
+            if got is None:
+                ctx.violation(rule, key + '|field', 'field %s missing from the decoded value' % fname, where)
+                good = False
+                continue
+            if exp[0] == 'origin':
+                txt = repr(got)
+                if val_is_none(got) or not origin_ok(txt, exp[1]):
+                    ctx.violation(rule, key + '|field:' + fname, 'field %s decodes to %s, expected the value written for index-mate %s' % (fname, txt[:80], exp[1]), where)
+                    good = False
+                elif exp[2] and not txt.startswith(exp[2]):
+                    ctx.violation(rule, key + '|borrow:' + fname, 'field %s should borrow from the input (%s...), got %s' % (fname, exp[2], txt[:80]), where)
+                    good = False
+            elif exp[0] == 'none':
+                if not val_is_none(got) and not (isinstance(got, Atom) and got.name.startswith(('nil', 'z'))):
+                    ctx.violation(rule, key + '|field:' + fname, 'absent optional field %s decodes to %s instead of its nil value' % (fname, repr(got)[:80]), where)
+                    good = False
+            elif exp[0] == 'default':
+                if 'default' not in repr(got):
+                    ctx.violation(rule, key + '|field:' + fname, 'skipped field %s is %s, expected Default::default()' % (fname, repr(got)[:80]), where)
+                    good = False
+        if fl:
+            ctx.violation(rule + '.precision', s['name'], 'decode summary not exact (%s)' % ','.join(fl), where)
+            good = False
+    if n_ok == 0 and good:
+        ctx.violation(rule, key + '|nopath', 'no successful decode path', where)
+        good = False
+    return good
+
+
+def expectation(s, v, pres, fields=None):
+    exp = {}
+    fields = fields if fields is not None else (v['fields'] if v is not None else s['fields'])
+    if v is not None:
+        exp['__variant__'] = v['name']
+    for f in fields:
+        fk = field_key(f, None)
+        if f['skip']:
+            exp[fk] = ('default',)
+        elif f['ty'].startswith('Vec<') and f['codec'] is None:
+            exp[fk] = ('any',)   # collection contents are summarised by one representative element (consumption is still checked)
+        elif pres.get(f['name'], True):
+            borrow = None
+            if f['b'] and f['ty'].startswith('Cow<'):
+                borrow = 'Cow#0'
+            exp[fk] = ('origin', fk, borrow)
+        else:
+            exp[fk] = ('none',) if f['ty'].startswith('Option<') else ('any',)
+    return exp
+
+
+def c09(ctx, schemas=None, prog=None):
+    d = corpus()
+    prog = prog or load.program('schemas')
+    n = 0
+    roots = 0
+    for s in (schemas or d['schemas']):
+        label = s['name']
+        r = summaries.summary(prog, enc_path(s), 'enc', LEAF)
+        if r is None or r[0] == 'abort':
+            ctx.fail_closed('S-RT.derive', 'derived Encode for %s not summarised' % label)
+            continue
+        inst, outs, m = r
+        roots += 1
+        where = 'derive(Encode, Decode) on %s [%s]' % (label, s.get('doc') or s['kind'])
+        for o in outs:
+            if o.kind != 'return' or l1.result_kind(o.value) != 'Ok':
+                continue
+            v = variant_of(s, o.st)
+            fields = v['fields'] if v is not None else s['fields']
+            pres = presence_of(o.st, fields, s.get('generics') or ())
+            for k_ in list(pres):
+                if pres[k_] is None:
+                    pres[k_] = True
+            key = '%s|%s|%s' % (label, v['name'] if v else '-', pv_key(pres))
+            exp = expectation(s, v, pres) if not s.get('transparent') else {field_key(s['fields'][0], None): ('origin', field_key(s['fields'][0], None), None)}
+            n += 1
+            if check_decode_over(ctx, 'S-RT.derive', key, prog, s, dec_path(s), o.st.events, exp, where, from_state=o.st):
+                ctx.ok('S-RT.derive', key)
+            # re-framing: the type's own container written with indefinite length
+            lead = lead_items(s, v) if not s.get('transparent') else None
+            if lead is not None:
+                ev2 = reframe(o.st.events, lead)
+                if ev2 is not None:
+                    n += 1
+                    if check_decode_over(ctx, 'S-RT.indef', key + '|indef', prog, s, dec_path(s), ev2, exp, where, from_state=o.st):
+                        ctx.ok('S-RT.indef', key)
+    ctx.count('S-RT.derive.cases', n)
+    ctx.floor('S-RT.derive', 'schemas', roots, min(60, len(schemas or d['schemas'])))
+    return n
